@@ -126,7 +126,7 @@ def tle_elements(draw):
 def period_of(case):
     if "tle" in case:
         return 86400.0 / case["tle"]["n"]
-    return TWO_PI * math.sqrt(case["el"]["a"] ** 3 / MU_E)
+    return TWO_PI * math.sqrt(case["el"]["a"] ** 3 / go.MU[case.get("body", "Earth")])
 
 
 def max_anomaly_rate(case, anomaly):
@@ -134,7 +134,7 @@ def max_anomaly_rate(case, anomaly):
     if "tle" in case:
         n, e = case["tle"]["n"] * TWO_PI / 86400.0, case["tle"]["e"]
     else:
-        n, e = math.sqrt(MU_E / case["el"]["a"] ** 3), case["el"]["e"]
+        n, e = math.sqrt(go.MU[case.get("body", "Earth")] / case["el"]["a"] ** 3), case["el"]["e"]
     if anomaly == "mean":
         return n
     if anomaly == "eccentric":
@@ -143,7 +143,7 @@ def max_anomaly_rate(case, anomaly):
 
 
 @st.composite
-def source_spec(draw, props=("kepler", "kepler", "sgp4", "keplernum", "ephem")):
+def source_spec(draw, props=("kepler", "kepler", "j2", "sgp4", "keplernum", "ephem")):
     prop = draw(st.sampled_from(props))
     case = dict(prop=prop, mjd=draw(st.integers(50000, 57500)), sec=float(draw(st.integers(0, 86399))))
     if prop == "sgp4":
@@ -218,6 +218,7 @@ def stream_case(draw, shard, tier, kinds=None, nmin=1, nmax=4, station=False, pr
             pool = [k for k in pool if k != "mask"]
     k = draw(st.integers(nmin, nmax))
     case["listeners"] = [draw(listener_spec(case, pool)) for _ in range(k)]
+    case["listeners_as"] = draw(st.sampled_from(["list", "list", "tuple", "single"]))
     return case
 
 
@@ -247,6 +248,17 @@ def make_source(case):
         return c04.cart_orbit(case["el"], epoch, KeplerNum(timedelta(seconds=case["step"]), get_body("Earth"))), "EME2000"
     from beyond.propagators.kepler import Kepler
 
+    if prop == "j2":
+        from beyond.propagators.j2 import J2
+
+        return c04.cart_orbit(case["el"], epoch, J2()), "EME2000"
+    if case.get("body", "Earth") != "Earth":
+        # Kepler motion around another central body (non-rotating frame centred on it)
+        from beyond.orbits import Orbit
+
+        from . import c01
+
+        return Orbit(go.cart_of(case["el"]), epoch, "cartesian", c01.frame_for(case["body"]), Kepler()), "VF" + case["body"]
     orb = c04.cart_orbit(case["el"], epoch, Kepler())
     if prop == "ephem":
         start, stop, step = grid(case)
@@ -384,7 +396,10 @@ class Item:
 
 def run_stream(source, case, listeners, rng=None):
     start, stop, step = rng or grid(case)
-    kwargs = dict(listeners=list(listeners))
+    # the documented spellings of the `listeners` argument: a list, a tuple, or the Listener itself
+    how = case.get("listeners_as", "list")
+    given = tuple(listeners) if how == "tuple" else (listeners[0] if (how == "single" and len(listeners) == 1) else list(listeners))
+    kwargs = dict(listeners=given)
     if case["prop"] == "ephem" and case.get("ephem_native") and rng is None:
         it = source.iter(**kwargs)
     else:
@@ -463,6 +478,7 @@ class G:
         }[k]
         self.cond_eps = 1e-8  # on the elevation used by a visibility condition
         self.wrong_angle = False
+        self.body = case.get("body", "Earth")
         self.skip_known_band = k == "light" and spec.get("type") == "penumbra" and finding_active(PENUMBRA_KEY)
 
     def value(self, sv):
@@ -474,7 +490,7 @@ class G:
             return float(c[:3] @ c[3:]), True
         if k == "anomaly":
             c = cart_in(sv, self.frame, self.native)
-            el = tb.cart2elements(c, go.MU_LIB())
+            el = tb.cart2elements(c, go.MU_LIB(self.body))
             a = {"true": el["nu"], "mean": el["M"], "eccentric": el["E"], "aol": el["u"]}[self.spec["anomaly"]]
             d = (a - self.spec["value"] + math.pi) % TWO_PI - math.pi
             return d, abs(d) < 2
@@ -588,7 +604,7 @@ def analyse(case, aspects, source=None, listeners=None, specs=None, items=None):
     if source is None:
         source, native = make_source(case)
     else:
-        native = "TEME" if case["prop"] == "sgp4" else "EME2000"
+        native = "TEME" if case["prop"] == "sgp4" else ("EME2000" if case.get("body", "Earth") == "Earth" else "VF" + case["body"])
     if listeners is None:
         specs, listeners = make_listeners(case)
     if items is None:
@@ -679,6 +695,10 @@ def analyse(case, aspects, source=None, listeners=None, specs=None, items=None):
 
 def classes_of(case, stats):
     cls = [f"prop:{case['prop']}", f"nlis:{len(case['listeners'])}"] + sorted({f"L:{s['kind']}" for s in case["listeners"]})
+    if case.get("body", "Earth") != "Earth":
+        cls.append(f"body:{case['body']}")
+    if case.get("listeners_as", "list") != "list":
+        cls.append(f"listeners-as:{case['listeners_as']}")
     if "el" in case and case["el"]["e"] > 0.5:
         cls.append("molniya")
     if stats.get("multi"):
@@ -821,6 +841,19 @@ def check_passes(case):
 @st.composite
 def closed_case(draw, shard, tier):
     case = draw(source_spec(("kepler",)))
+    body = draw(st.sampled_from(["Earth", "Earth", "Moon", "Mars"]))
+    if body != "Earth":
+        # the same kind of orbit around another central body (its own mu and radius)
+        el = draw(go.elements(hyperbolic=False, bodies=(body,), emax_ell=0.6, rp_range=(1.1, 4.0)))
+        el["e"] = max(el["e"], 1e-3)
+        el["a"] = go.RADIUS[body] * 1.1 / (1 - el["e"]) if el["a"] * (1 - el["e"]) < go.RADIUS[body] * 1.05 else el["a"]
+        el["i"] = min(max(el["i"], 0.05), math.pi - 0.05)
+        M = el["anom"] % TWO_PI
+        el.update(anom=M, nu=tb.E2nu(tb.solve_kepler_E(M, el["e"]), el["e"]))
+        case.update(el=el, body=body)
+        period = period_of(case)
+        case["step"] = float(max(20, round(period / draw(st.integers(12, 60)))))
+        case["n"] = min(150, int(draw(go.uniform(1.0, 3.0)) * period / case["step"]) + 9)
     k = draw(st.integers(1, 3))
     case["listeners"] = [draw(listener_spec(case, ["node", "apside", "anomaly", "anomaly"])) for _ in range(k)]
     for spec in case["listeners"]:
@@ -828,13 +861,13 @@ def closed_case(draw, shard, tier):
     return case
 
 
-def closed_form_times(spec, el, t_first, t_last):
+def closed_form_times(spec, el, t_first, t_last, body="Earth"):
     """Crossing times (s after the epoch) of the listener's quantity for the Kepler orbit whose epoch
     state is the cartesian state of `el` (elements re-derived with the library's mu, which is not
     exactly the generator's)."""
-    lib = tb.cart2elements(go.cart_of(el), go.MU_LIB())
+    lib = tb.cart2elements(go.cart_of(el), go.MU_LIB(body))
     a, e, w, M0 = lib["a"], lib["e"], lib["argp"], lib["M"]
-    n = math.sqrt(go.MU_LIB() / a**3)
+    n = math.sqrt(go.MU_LIB(body) / a**3)
     period = TWO_PI / n
 
     def M_of_nu(nu):
@@ -876,7 +909,7 @@ def check_closed(case):
             continue
         spec = specs[it.lis]
         t_ev = off + it.us / 1e6
-        times = closed_form_times(spec, case["el"], off - 1, t_ev + 1)
+        times = closed_form_times(spec, case["el"], off - 1, t_ev + 1, case.get("body", "Earth"))
         d = min(abs(t_ev - t) for t in times)
         worst = max(worst, d / 20e-6)
         if d > 20e-6:
@@ -1150,6 +1183,7 @@ def reuse_case(draw, shard, tier):
         hi = draw(st.integers(lo + 4, n))
         ops.append(dict(lo=lo, hi=hi) if draw(st.integers(0, 2)) else dict(lo=0, hi=n))
     case["ops"] = [dict(lo=0, hi=n)] + ops + [dict(lo=0, hi=n)]
+    case["clone_listeners"] = draw(st.sampled_from(["none", "none", "copy", "deepcopy", "pickle"]))
     return case
 
 
@@ -1163,6 +1197,12 @@ def check_reuse(case):
     seen = {}
     total = 0
     for k, op in enumerate(case["ops"]):
+        if k == 1 and case.get("clone_listeners", "none") != "none" and not any(sp["kind"] in STATION_KINDS + ["terminator"]
+                                                                                 for sp in specs):
+            # from the second iteration on, clones of the (already used) listener objects serve
+            from ..gen import dates as gd
+
+            listeners = [gd.clone(x, case["clone_listeners"]) for x in listeners]
         rng = (start + step * op["lo"], start + step * op["hi"], step)
         sub = dict(case, n=op["hi"] - op["lo"], n0=case["n"])
         items = run_stream(source, sub, listeners, rng=rng)
@@ -1187,7 +1227,8 @@ def check_reuse(case):
         if stream and stream[0][1] is not None:
             raise Violation("reuse-leak", f"{what}: iteration #{k} starts with event {stream[0][1]} before its first sample")
     stats = dict(events=total, multi=False, skipped=0)
-    return dict(nt=total > 0, cls=classes_of(case, stats) + [f"ops:{len(case['ops'])}"])
+    return dict(nt=total > 0, cls=classes_of(case, stats) + [f"ops:{len(case['ops'])}"]
+                + ([f"listeners-cloned:{case['clone_listeners']}"] if case.get("clone_listeners", "none") != "none" else []))
 
 
 # ------------------------------------------------------------------ the same listeners serve different orbits
@@ -1497,6 +1538,98 @@ def check_restart(case):
     return dict(nt=stale is not None, cls=cls)
 
 
+# ------------------------------------------------------------------ backward iteration (negative step)
+
+BACKWARD_KEY = "C10/backward-labels-follow-iteration-order"
+
+
+def _backward_labels_finding(facet, case, kind, msg, data):
+    """Periapsis/Apoapsis, umbra/penumbra entry/exit and mask AOS/LOS are decided against the previously
+    iterated sample: iterating backward in time swaps them.  Pinned to: backward facet, label swap of exactly
+    those listener kinds, same instant."""
+    return (facet == "backward" and kind == "backward-label" and (data or {}).get("listener") in ("apside", "light", "mask")
+            and (data or {}).get("swapped") is True)
+
+
+FINDINGS[BACKWARD_KEY] = _backward_labels_finding
+
+BACKWARD_ORDER_KEY = "C10/backward-events-of-one-step-in-forward-order"
+
+
+def _backward_order_finding(facet, case, kind, msg, data):
+    """listen() sorts the events found between two samples by increasing date whatever the direction of the
+    iteration.  Pinned to: backward facet, two EVENTS (not samples) of one step out of order."""
+    return facet == "backward" and kind == "order-stream" and (data or {}).get("both_events") is True
+
+
+FINDINGS[BACKWARD_ORDER_KEY] = _backward_order_finding
+
+SWAPS = {"Periapsis": "Apoapsis", "Apoapsis": "Periapsis", "Umbra entry": "Umbra exit", "Umbra exit": "Umbra entry",
+         "Penumbra entry": "Penumbra exit", "Penumbra exit": "Penumbra entry", "AOS": "LOS", "LOS": "AOS"}
+
+
+@st.composite
+def backward_case(draw, shard, tier):
+    case = draw(source_spec(("kepler", "kepler", "j2", "ephem")))
+    case["n"] = min(case["n"], 120)
+    case["ephem_native"] = False
+    # listeners whose own condition does not depend on which of the two samples comes later
+    case["listeners"] = [draw(listener_spec(case, ["node", "apside", "light", "terminator", "anomaly"]))
+                         for _ in range(draw(st.integers(1, 3)))]
+    return case
+
+
+def check_backward(case):
+    from .. import findings
+
+    what = describe(case)
+    start, stop, step = grid(case)
+    src_f, native = make_source(case)
+    specs, lis_f = make_listeners(case)
+    forward = run_stream(src_f, case, lis_f)
+    src_b, _ = make_source(case)
+    _, lis_b = make_listeners(case)
+    back = collect(src_b.iter(start=stop, stop=start, step=-step, listeners=list(lis_b)), start, lis_b, 4 * case["n"] + 200)
+    # reverse chronological order, the same grid
+    for a, b in zip(back, back[1:]):
+        if b.us > a.us:
+            raise Violation("order-stream", f"{what}: backward stream goes forward in time at {b.us} us (after {a.us} us)",
+                            both_events=(a.label is not None and b.label is not None))
+    fs = [it.us for it in forward if it.label is None or it.dup]
+    bs = [it.us for it in back if it.label is None or it.dup]
+    if sorted(bs) != sorted(fs):
+        raise Violation("order-grid", f"{what}: the backward stream has {len(bs)} samples, the forward one {len(fs)} (same grid)")
+    fe = [it for it in forward if it.label is not None and not it.dup]
+    be = [it for it in back if it.label is not None and not it.dup][::-1]
+    gs = [G(spec, case, native) for spec in specs]
+    # a sample on a zero makes both directions undecidable there
+    sv = [it.sv for it in forward if it.label is None or it.dup]
+    if any(abs(g.value(x)[0]) < g.eps for g in gs for x in sv):
+        return dict(nt=False, cls=classes_of(case, dict(events=len(fe), multi=False, skipped=1)) + ["sample-on-a-zero"])
+    # event by event, listener by listener (two listeners may fire at the same microsecond)
+    fe = sorted(fe, key=lambda e: (e.lis, e.us))
+    be = sorted(be, key=lambda e: (e.lis, e.us))
+    if [e.lis for e in fe] != [e.lis for e in be]:
+        raise Violation("backward-events", f"{what}: forward iteration finds {[(e.us, e.label) for e in fe][:5]}, backward "
+                                           f"iteration over the same span {[(e.us, e.label) for e in be][:5]}")
+    known = {}
+    for f, b in zip(fe, be):
+        if abs(f.us - b.us) > 3:
+            raise Violation("backward-date", f"{what}: '{f.label}' at {f.us} us forward, '{b.label}' at {b.us} us backward")
+        if f.label != b.label:
+            kind = gs[f.lis].kind
+            data = dict(listener=kind, swapped=SWAPS.get(f.label) == b.label, forward=f.label, backward=b.label)
+            msg = (f"{what}: the crossing at t = {f.us / 1e6} s is '{f.label}' when iterating forward and '{b.label}' when "
+                   f"iterating backward in time")
+            key = findings.match("C10", "backward", case, "backward-label", msg, data)
+            if key is None:
+                raise Violation("backward-label", msg, **data)
+            k = known.setdefault(key, dict(n=0, example=dict(kind="backward-label", msg=msg, data=data)))
+            k["n"] += 1
+    stats = dict(events=len(fe), multi=False, skipped=0)
+    return dict(nt=len(fe) > 0, cls=classes_of(case, stats), known=known)
+
+
 # ------------------------------------------------------------------ facets
 
 FACETS = [
@@ -1532,6 +1665,8 @@ FACETS = [
     Facet("restart_from_yielded_state", restart_case, check_restart, setup=setup, shrink_quick=False,
           rule="the second stream starts from a state that carries an event of the first stream",
           quick=(6, 5), thorough=(16, 40)),
+    Facet("backward", backward_case, check_backward, setup=setup, shrink_quick=False,
+          rule="at least one event in the span", quick=(6, 5), thorough=(16, 40)),
     Facet("reuse", reuse_case, check_reuse, setup=setup, shrink_quick=False,
           rule="at least one event over the history", quick=(4, 4), thorough=(16, 25)),
 ]
